@@ -232,8 +232,18 @@ def home(F, name, allowed, depth=3):
         if "::{closure" in cur:
             cur = cur[:cur.index("::{closure")]
             continue
+        raw = set(_callers(F).get(cur, ()))
+        if raw and raw <= set(allowed) and cur in F.fns and all(F.fns[c].file == F.fns[cur].file for c in raw if c in F.fns):
+            return sorted(raw)[0]       # called by listed functions / closures only
         up = sole_caller(F, cur)
         if up is None:
+            # a helper shared by several listed functions (or their closures) and by nothing else
+            callers = set(_callers(F).get(cur, ()))
+            if callers and depth > 0 and len(callers) <= MAX_CALLERS and cur in F.fns and \
+                    all(c in F.fns and F.fns[c].file == F.fns[cur].file for c in callers):
+                homes = {c if c in allowed else home(F, c, allowed, depth - 1) for c in callers}
+                if homes and all(h in allowed for h in homes):
+                    return sorted(homes)[0]
             break
         cur = up
     return cur if cur in allowed else name
